@@ -110,4 +110,9 @@ where
         let w = crate::qdldl::verif_hooks::workspace_view(&self.factors);
         Some((w.triuA.nzval, w.AtoPAPt))
     }
+
+    #[cfg(feature = "verif-hooks")]
+    fn verif_ldl_perm(&self) -> Option<Vec<usize>> {
+        Some(self.factors.perm.clone())
+    }
 }
